@@ -122,6 +122,7 @@ func cmdWorker(args []string) int {
 	}
 	c := core.NewCtx(id, *tier, *seed, *shard, *nshards)
 	enum.SetSeed(*seed)
+	enum.Deep = *tier == "thorough"
 	c.Only = *only
 	c.KFListed = map[string]bool{}
 	for _, f := range core.LoadKnownFindings() {
@@ -367,7 +368,10 @@ func writeEvidence(chk *Check, tier string, seed int64, m *core.Part, wall float
 		cov["cap"] = m.CapNote
 	}
 	if chk.Bounds != nil {
-		cov["bounds"] = chk.Bounds(tier == "thorough")
+		cov["bounds"] = chk.Bounds(tier == "thorough" || core.PromotedQuick[chk.ID])
+		if tier != "thorough" && core.PromotedQuick[chk.ID] {
+			cov["bounds_note"] = "quick tier runs the thorough bounds of this property (cheap); the thorough tier adds the deep extensions"
+		}
 	}
 	ev := map[string]any{
 		"property_id": chk.ID,
@@ -412,6 +416,7 @@ func cmdReplay(args []string) int {
 	fmt.Printf("replaying %s case %q (tier %s, seed %d) against the current /repo tree\n", doc.Property, doc.CaseID, doc.Tier, doc.Seed)
 	c := core.NewCtx(doc.Property, doc.Tier, doc.Seed, 0, 1)
 	enum.SetSeed(doc.Seed)
+	enum.Deep = doc.Tier == "thorough"
 	c.Only = doc.CaseID
 	c.KFListed = map[string]bool{}
 	chk.Fn(c)
